@@ -66,6 +66,6 @@ pub static DEF: CheckDef = CheckDef {
     id: "C04", level: "exploration", gen, exec,
     nontrivial: |o| o.counters.get("cmds").copied().unwrap_or(0) >= 30,
     rule: "one run = one seeded history of 30-400 sorted-set commands over 2 keys with member pools of 4-40 and scores drawn to collide (equal scores, re-scoring across neighbours, +-0, +-inf, inf + -inf via ZINCRBY, nan, denormals, 1-ulp differences, 1e308; multi-pair ZADD with a bad score in any pair), all read commands with rank/score bounds incl. reversed, out-of-range, exclusive and infinite ones; the skip-list tower shapes come from the per-run entropy seed; every reply is compared with the model (scores numerically), and after every command the real skip list is walked by the structural invariant checker (level 0 strictly ordered by (score, member), every level a subsequence of level 0, key index and length agree with the chain, no NaN stored) and its level-0 chain is compared with the model; non-trivial = at least 30 commands; distinct = distinct event-log hash",
-    quick_budget_s: 40.0, thorough_budget_s: 900.0, quick_max_runs: 1_000_000, thorough_max_runs: 100_000_000, exhaustive: false,
+    quick_budget_s: 40.0, thorough_budget_s: 900.0, quick_max_runs: 1_000_000, thorough_max_runs: 100_000_000, exhaustive: false, exhaustive_after: |_| 0,
     real: REAL_WHOLE_SERVER, stub: STUB_WHOLE_SERVER, assumptions: ASSUME_COMMON,
 };
